@@ -7,8 +7,10 @@ open MaddyVerif.TimeWheel Driver
 schedule tokens: `t<i>.<choice>` `tp<i>.<n>` `c` `k` `kb<kind>` `kt` `ku<i>` `ks` `a<d>`  (`kb<kind>`: the tick goroutine's
 dispatch step of an entry whose message is on disk only, while the spool entry cannot be opened; the
 kind — 1 meta-data missing, 2 meta-data undecodable, 3 header undecodable — matters to the harness only;
-`tp<i>.<n>`, n < 16: the delivery attempt of goroutine `i` panics — stage n % 4 of the dialogue (Start, AddRcpt,
-Body, Commit) and kind of panic value n / 4 matter to the harness only). -/
+`tp<i>.<n>`, n < 20: the delivery attempt of goroutine `i` panics — n < 16: the next hop, at stage n % 4 of the dialogue
+(Start, AddRcpt, Body, Commit) with a panic value of kind n / 4; 16 ≤ n: the next hop rejects the message for good and the
+bounce pipeline panics while it takes the failure report (kind n - 16): both are panics of code the attempt calls, the
+difference matters to the harness only). -/
 
 def parseWho (s : String) : Option Who :=
   let cs := s.toList
@@ -25,7 +27,7 @@ def parseWho (s : String) : Option Who :=
     | [i, n] => do
       let i ← i.toNat?
       let n ← n.toNat?
-      if n < 16 then pure (Who.thrPanic i) else none
+      if n < 20 then pure (Who.thrPanic i) else none
     | _ => none
   | 't' :: rest =>
     match (String.ofList rest).splitOn "." with
